@@ -121,7 +121,7 @@ def drive(sess, rnd, cfg, record):
         nsrc = len(m.sources())
         if want_multi and nsrc < R.pick([2, 2, 3, 4]) and R.chance(0.3):
             op = g.op_add_source(m)
-        elif want_mux and m.mux() is None and len(m.order) >= 2 and R.chance(0.35) and "PMux" in cfg["kinds"]:
+        elif want_mux and m.mux() is None and len(m.order) >= (4 if R.chance(0.5) else 2) and R.chance(0.35) and "PMux" in cfg["kinds"]:
             op = g.op_add_mux(m)
         else:
             op = g.op_add_comp(m)
